@@ -1,6 +1,7 @@
 # Builds the simulator against /repo's CURRENT working tree (header-only: every TU includes it;
 # -MMD dependency files make any edit under /repo/include trigger the rebuild of what uses it).
 REPO ?= /repo
+BUILD ?= build
 CXX := clang++
 COMMON := -std=c++17 -I$(REPO)/include -I/usr/include/eigen3 -Isim/seam -Isim -DSPECTRA_VERIF_SIM \
           -include sim/core/eigen_config.h -MMD -MP -Wall -Wno-unused-function -Wno-unused-local-typedef \
@@ -16,11 +17,11 @@ SRC := $(CORE_SRC) $(FAM_SRC) sim/main.cpp
 UNINSTR := sim/core/sched.cpp
 
 define VARIANT
-$(1)_OBJ := $$(patsubst sim/%.cpp,build/$(1)/%.o,$$(SRC))
-build/$(1)/%.o: sim/%.cpp
+$(1)_OBJ := $$(patsubst sim/%.cpp,$(BUILD)/$(1)/%.o,$$(SRC))
+$(BUILD)/$(1)/%.o: sim/%.cpp
 	@mkdir -p $$(dir $$@)
 	$$(CXX) $$(COMMON) $$(if $$(filter $$<,$$(UNINSTR)),$$(PLAIN_FLAGS),$(2)) -c $$< -o $$@
-build/$(1)/sim: $$($(1)_OBJ)
+$(BUILD)/$(1)/sim: $$($(1)_OBJ)
 	$$(CXX) $(2) $$^ -o $$@ -lpthread
 -include $$($(1)_OBJ:.o=.d)
 endef
@@ -31,8 +32,8 @@ $(eval $(call VARIANT,plain,$(PLAIN_FLAGS)))
 
 .PHONY: all asan tsan plain clean
 all: asan tsan plain
-asan: build/asan/sim
-tsan: build/tsan/sim
-plain: build/plain/sim
+asan: $(BUILD)/asan/sim
+tsan: $(BUILD)/tsan/sim
+plain: $(BUILD)/plain/sim
 clean:
-	rm -rf build
+	rm -rf $(BUILD)
